@@ -28,11 +28,17 @@ META = {
         "refines the corresponding list operation (dll_insertBefore … dll_spliceAllBefore). On top of it the store "
         "invariant Inv (three WF instances for ops-in-block, blocks-in-region, uses-of-value/-block; use lists = exactly "
         "the operand/successor positions, each once; result/argument index fields; regions of operations) is proved "
-        "preserved by 45 of the 58 public mutators the harness exercises (all but the erasure of operations, blocks and regions) (inv_step_partial) and by every history of "
-        "them with raising calls skipped (inv_history_partial); the property's clauses are read off Inv "
-        "(ops/blocks/regions_exactly_once, uses_exact, block_uses_exact, indices_match). PARTIAL: the erasure of ops/blocks/regions "
-        "(13 calls: drop_all_references over a subtree; needs acyclicity, which xDSL guards only in _attach_op/_attach_block) "
-        "is modelled and compared after every call but not covered by inv_step; the calls are named in "
+        "preserved by all 58 public mutators the harness exercises (inv_step) and by every history of them with raising "
+        "calls skipped (inv_history); the only hypothesis is the contract of Operation.drop_all_references (called on a "
+        "detached operation; dropAllReferences_attached_counterexample shows the property is false without it; the other "
+        "57 kinds: inv_step_unconditional, inv_history_unconditional). The 45 non-erasing kinds: inv_step_partial, "
+        "inv_history_partial. The 13 erasing kinds (erase_op, block_erase, erase_block(_idx), region_erase, op_erase, "
+        "drop_all_references, rw_erase_op, rw_replace_op, rw_inline_block, pr_erase, pr_replace, pr_inline_block): the "
+        "subtree walk of drop_all_references from a detached object terminates within its fuel, is duplicate-free and "
+        "parent-closed (erase_walk) without any acyclicity assumption (an object has one parent, a detached root none, so "
+        "the walk cannot reach a cycle), and dropping the subtree preserves Inv (inv_dropTree; dropOne_uses: exactly the "
+        "Use objects of the erased operations leave the use lists). The property's clauses are read off Inv "
+        "(ops/blocks/regions_exactly_once, uses_exact, block_uses_exact, indices_match). Theorems are in "
         "XdslProofs/C01.lean. Tie to /repo: every history (constructor calls from the empty universe + 1–60 mutation "
         "calls, ~80 % satisfying their preconditions) is executed on real xDSL objects; after every successful call an "
         "independent whole-tree invariant walk is the oracle, and the full public observation (ops forward/backward, "
@@ -55,7 +61,9 @@ META = {
         "quantifier skips raising calls, so states produced by them are not judged. Use lists are compared as multisets "
         "(their order is not part of the statement). Side observation, not a C01 matter: the ValueError message of "
         "SSAValue.erase prints the half-erased owner and the printer can raise IndexError instead; such calls are counted "
-        "as raising ValueError. inv_step is partial: see 'text'."
+        "as raising ValueError. inv_step covers all 58 call kinds under the drop_all_references contract: see 'text'. "
+        "Model deviation added for the erasure proofs (unobservable: erased operations are never dumped or referenced): "
+        "drop_all_references empties the regions tuple of the erased operation (xDSL keeps the tuple and nulls the regions' parent)."
     ),
     "rule": (
         "case = one history (JSON list of calls over integer ids; ids of created objects are part of the call). "
